@@ -108,6 +108,8 @@ pub fn for_each_tree(mut run: impl FnMut(&mut dyn FnMut(&[u8]) -> bool, &[bool])
 
 /// The shared world: all indices up to the largest universe index exist; the
 /// entities inside the universe cover every status.
+thread_local!(pub static GHOST: std::cell::Cell<bool> = const { std::cell::Cell::new(false) });
+
 pub struct Ctx {
     pub w: World,
     /// live handle per universe index (None: index 1 is dead)
@@ -124,6 +126,13 @@ pub struct Ctx {
 
 impl Ctx {
     pub fn new<T: Kind, V: Kind>(u: &[u32]) -> Ctx {
+        Self::new_with::<T, V>(u, GHOST.with(|g| g.get()))
+    }
+
+    /// `ghost`: index u[1]'s last occupant lived and died through the shared resource within one
+    /// frame and a maintain ran afterwards; the largest index is then a *reused* index awaiting
+    /// maintain instead of a never-used one (the free list is not empty at that point).
+    pub fn new_with<T: Kind, V: Kind>(u: &[u32], ghost: bool) -> Ctx {
         let mut w = World::new();
         T::register(&mut w);
         V::register(&mut w);
@@ -131,6 +140,8 @@ impl Ctx {
         // everything below the largest index is created immediately, the largest
         // index itself through the shared resource (still awaiting maintain)
         let all: Vec<Entity> = w.create_iter().take(max as usize).collect();
+        let ghost = ghost && u.len() >= 6;
+        let top0 = if ghost { Some(w.create_entity().build()) } else { None };
         let mut live: BTreeMap<u32, Entity> = BTreeMap::new();
         let mut stale = vec![];
         for i in u {
@@ -138,12 +149,24 @@ impl Ctx {
                 live.insert(*i, all[*i as usize]);
             }
         }
+        if ghost {
+            w.delete_entity(all[u[1] as usize]).unwrap();
+            let g = w.entities().create();
+            assert_eq!(g.id(), u[1]);
+            w.entities().delete(g).unwrap();
+            w.maintain();
+            stale.push((g, "dead, created and deleted through the shared resource within one frame"));
+            // free the top index so that the next creation lands on it
+            w.delete_entity(top0.unwrap()).unwrap();
+            stale.push((top0.unwrap(), "dead, index reused by an entity awaiting maintain"));
+        }
         let last = w.entities().create();
         assert_eq!(last.id(), max);
         live.insert(max, last);
         // index u[1] dies for good; u[2] and u[5] are reused (deferred / immediate)
         if u.len() >= 6 {
             let d = live.remove(&u[1]).unwrap();
+
             let r1 = live[&u[2]];
             let r2 = live[&u[5]];
             w.delete_entity(r2).unwrap();
@@ -154,7 +177,9 @@ impl Ctx {
             let n1 = w.entities().create();
             assert_eq!(n1.id(), u[2]);
             live.insert(u[2], n1);
-            w.delete_entity(d).unwrap();
+            if !ghost {
+                w.delete_entity(d).unwrap();
+            }
             stale.push((d, "dead, index free"));
             stale.push((r1, "dead, index reused by an entity awaiting maintain"));
             stale.push((r2, "dead, index reused"));
@@ -1790,6 +1815,13 @@ pub fn main() {
                 let (s, fl) = sweep_bitsets(&U, &ab, &ab, false, 0);
                 ("bitsets+entities".into(), s, fl)
             }));
+            let ab = all_b.clone();
+            jobs.push(Box::new(move || {
+                GHOST.with(|g| g.set(true));
+                let (s, fl) = sweep_bitsets(&U, &ab, &ab, false, 0);
+                GHOST.with(|g| g.set(false));
+                ("bitsets+entities, universe with an index whose last occupant was created and deleted through the shared resource within one frame".into(), s, fl)
+            }));
             jobs.push(Box::new(|| {
                 let (s, fl) = sweep_arity([0, 63, 64]);
                 ("arity 1..16".into(), s, fl)
@@ -1848,6 +1880,15 @@ pub fn main() {
             }
             let ab = if thorough || true { all_b.clone() } else { some_b.clone() };
             let ab2 = all_b.clone();
+            {
+                let (ab, ab2) = (ab.clone(), ab2.clone());
+                jobs.push(Box::new(move || {
+                    GHOST.with(|g| g.set(true));
+                    let (s, fl) = sweep_bitsets(&U, &ab, &ab2, true, 100_000);
+                    GHOST.with(|g| g.set(false));
+                    ("split trees bitsets+entities, universe with a same-frame created-and-deleted occupant".into(), s, fl)
+                }));
+            }
             jobs.push(Box::new(move || {
                 let (s, fl) = sweep_bitsets(&U, &ab, &ab2, true, 100_000);
                 ("split trees bitsets+entities".into(), s, fl)
